@@ -7,7 +7,7 @@ import typing
 import z3
 
 from .explore import NeedFork
-from .sym import (EngineValue, Opt, Maybe, Sym, SBool, SInt, SStr, SSeq, SSet, SRef, SObj, MutSet, OutOfSubset, B, I, S, And, Or, Not, Ite,
+from .sym import (SArr, MutList, EngineValue, Opt, Maybe, Sym, SBool, SInt, SStr, SSeq, SSet, SRef, SObj, MutSet, OutOfSubset, B, I, S, And, Or, Not, Ite,
                   has_sym, kind_of, concrete_of, KSet, KSeq, KStr, KInt, KBool, simp, str_of_int)
 
 
@@ -428,8 +428,23 @@ def _demaybe(it, v, key):
     return v
 
 
+def _norm_idx(it, n, k):
+    """index k into a sequence of length n (SInt): IndexError fork, then the non-negative index term"""
+    kt = I(k)
+    inb = And(SBool(kt < n.t), SBool(kt >= -n.t))
+    if not it.truth(inb):
+        _raise(IndexError("index out of range"))
+    return kt if (isinstance(k, int) and k >= 0) else z3.If(kt < 0, n.t + kt, kt)
+
+
 def getitem(it, o, k):
     o = it.deopt(o)
+    if isinstance(o, MutList):
+        o = o.val
+    if isinstance(o, SArr):
+        if isinstance(k, slice):
+            raise OutOfSubset("slice of an array-backed list")
+        return o.at(SInt(_norm_idx(it, o.length(), k)))
     if isinstance(o, (SStr, SSeq)):
         if isinstance(k, slice):
             if k.step is not None:
@@ -460,6 +475,16 @@ def getitem(it, o, k):
                         return o[i]
                 _raise(IndexError("index out of range"))
             if isinstance(o, dict):
+                ks = list(o)
+                if ks and SYMKEYS not in o and all(isinstance(x, str) for x in ks) and isinstance(k, SStr) \
+                        and all(isinstance(v, int) and not isinstance(v, bool) for v in o.values()):
+                    # table lookup str -> int: one fork on membership, the value as an ite chain
+                    if not it.truth(Or(*[k == x for x in ks])):
+                        _raise(KeyError(k))
+                    val = z3.IntVal(o[ks[-1]])
+                    for x in reversed(ks[:-1]):
+                        val = z3.If(k.t == z3.StringVal(x), z3.IntVal(o[x]), val)
+                    return SInt(val)
                 for kk in o:
                     r = eq(it, kk, k)
                     if r is True or (r is not False and it.truth(r)):
@@ -474,6 +499,20 @@ def getitem(it, o, k):
 
 
 def setitem(it, o, k, v):
+    if isinstance(o, MutList):
+        if isinstance(k, slice):
+            raise OutOfSubset("slice assignment on a symbolic list")
+        s = o.val
+        idx = _norm_idx(it, s.length(), k)
+        if isinstance(s, SArr):
+            o.val = s.set(idx, v)
+            return
+        e = s.kind.elem.lift(v)
+        if e is None:
+            raise OutOfSubset(f"list element {v!r} of a different kind")
+        n = z3.Length(s.t)
+        o.val = SSeq(z3.Concat(z3.Extract(s.t, z3.IntVal(0), idx), z3.Unit(e), z3.Extract(s.t, idx + 1, n - idx - 1)), s.kind)
+        return
     if it.ex.guards and isinstance(o, dict) and not isinstance(k, Sym):
         from .interp import _MISSING, merge_values
         old = o.get(k, _MISSING)
@@ -525,6 +564,17 @@ SYMKEYS = _SymKeys()
 
 
 def delitem(it, o, k):
+    if isinstance(o, MutList):
+        if isinstance(k, slice):
+            raise OutOfSubset("slice deletion on a symbolic list")
+        s = o.val
+        idx = _norm_idx(it, s.length(), k)
+        if isinstance(s, SArr):
+            o.val = s.delete(idx)
+            return
+        n = z3.Length(s.t)
+        o.val = SSeq(z3.Concat(z3.Extract(s.t, z3.IntVal(0), idx), z3.Extract(s.t, idx + 1, n - idx - 1)), s.kind)
+        return
     if isinstance(o, SObj):
         m = inspect.getattr_static(o.cls, "__delitem__", None)
         if isinstance(m, types.FunctionType):
@@ -736,6 +786,15 @@ def getattr_(it, o, name):
         raise OutOfSubset(f"generator attribute {name}")
     if isinstance(o, str) and name in STR_METHODS and False:
         pass
+    if isinstance(o, MutList):
+        if name in LIST_METHODS:
+            return Model(lambda it_, *a, _f=LIST_METHODS[name], **k: _f(it_, o, *a, **k), f"list.{name}")
+        raise OutOfSubset(f"list.{name} on symbolic list")
+    om = getattr(it, "obj_models", None)
+    if om:
+        m = om.get(id(o), {}).get(name)
+        if m is not None:
+            return m
     try:
         v = getattr(o, name)
     except Exception as e:
@@ -796,6 +855,8 @@ def model(*targets):
 def m_len(it, v):
     if isinstance(v, (SStr, SSeq)):
         return v.length()
+    if isinstance(v, MutList):
+        return v.val.length()
     if isinstance(v, MutSet):
         if v.val is None:
             return 0
@@ -838,6 +899,10 @@ def m_int(it, v=0, base=10):
     if isinstance(v, SStr):
         if base != 10:
             raise OutOfSubset("int(str, base)")
+        # terms the contract declares to be digit strings (a stated type invariant): no regex query needed
+        vt = z3.simplify(v.t)
+        if any(vt.eq(k) for k in getattr(it, "digit_terms", ())):
+            return v.to_int()
         # digits only (python also accepts sign/space/underscore: outside the modelled subset)
         digits = z3.Plus(z3.Range("0", "9"))
         if not it.truth(SBool(z3.InRe(v.t, digits))):
@@ -1311,6 +1376,42 @@ def s_lstrip(it, s, chars=None):
 def s_rstrip(it, s, chars=None):
     from . import strtheory
     return strtheory.strip(it, s, chars, False, True)
+
+
+LIST_METHODS = {}
+
+
+@method(LIST_METHODS, "append")
+def list_append(it, o, x):
+    if isinstance(o.val, SArr):
+        o.val = o.val.append(x)
+        return
+    e = o.val.kind.elem.lift(x)
+    if e is None:
+        raise OutOfSubset(f"list.append of a different kind: {x!r}")
+    o.val = SSeq(z3.Concat(o.val.t, z3.Unit(e)), o.val.kind)
+
+
+@method(LIST_METHODS, "copy")
+def list_copy(it, o):
+    return MutList(o.val)
+
+
+@model(ord)
+def m_ord(it, c):
+    if isinstance(c, SStr):
+        from . import theory
+        f = theory.ufun("py_ord", z3.StringSort(), z3.IntSort())
+        r = f(c.t)
+        theory._add_axiom(("ord", r.get_id()), r >= 0)
+        return SInt(r)
+    return it.native(ord, (c,), {})
+
+
+@method(STR_METHODS, "isalpha")
+def s_isalpha(it, s):
+    # ASCII model (assumption listed in the evidence)
+    return s.in_re(z3.Plus(z3.Union(z3.Range("a", "z"), z3.Range("A", "Z"))))
 
 
 @method(STR_METHODS, "isdigit")
